@@ -15,9 +15,10 @@ Inductive case :=
    [t0],[t1] = wall clock (ns) just before / after the call *)
 | Create (id : N) (iptab : list (string * (bool * list N))) (env : auth_env) (rs : list auth_result)
          (na : option node_auth) (cfg : ca_cfg) (rq : request) (t0 t1 : Z) (obs : observed)
-(* companion of a [Create] case whose selected identities contain a comma: same data, checks only
-   "SAN entries = the identities" (the part of the oracle that [Create] leaves to this case) *)
-| CreateSans (id : N) (iptab : list (string * (bool * list N))) (env : auth_env) (rs : list auth_result)
+(* companion of a [Create] case that issued an impersonated identity outside the caller's trust
+   domain: same data, checks only that part of the oracle (which [Create] leaves to this case; open
+   finding C09-impersonation-trust-domain-unchecked) *)
+| CreateTd (id : N) (iptab : list (string * (bool * list N))) (env : auth_env) (rs : list auth_result)
          (na : option node_auth) (cfg : ca_cfg) (rq : request) (t0 t1 : Z) (obs : observed)
 (* JwtAuthenticator.Authenticate with a token carrying these claims; [verified] = the token is one
    go-oidc's verifier accepts (right issuer and key, not expired) *)
@@ -38,7 +39,7 @@ Inductive case :=
 
 Definition case_id c :=
   match c with
-  | Create id _ _ _ _ _ _ _ _ _ => id | CreateSans id _ _ _ _ _ _ _ _ _ => id | Oidc id _ _ _ _ _ _ => id | KubeJwt id _ _ _ _ => id
+  | Create id _ _ _ _ _ _ _ _ _ => id | CreateTd id _ _ _ _ _ _ _ _ _ => id | Oidc id _ _ _ _ _ _ => id | KubeJwt id _ _ _ _ => id
   | CertAuth id _ _ => id | Xfcc id _ _ _ _ _ => id | NewCA id _ _ _ _ _ => id
   | San id _ _ _ => id | ParseId id _ _ => id
   end.
@@ -127,7 +128,7 @@ Definition create_model_ok iptab env rs na cfg rq (t0 t1 : Z) (obs : observed) :
 Definition model_ok (c : case) : bool :=
   match c with
   | Create _ iptab env rs na cfg rq t0 t1 obs => create_model_ok iptab env rs na cfg rq t0 t1 obs
-  | CreateSans _ _ _ _ _ _ _ _ _ _ => true
+  | CreateTd _ _ _ _ _ _ _ _ _ _ => true
   | Oidc _ verified td auds sub aud obs =>
       authn_eqb (if verified then oidc_authenticate td auds sub aud else AErr) obs
   | KubeJwt _ td found tr obs => authn_eqb (kube_jwt_authenticate td found tr) obs
@@ -200,10 +201,24 @@ Definition spec_sans (ipf : ip_parser) (ids : list string) : list san := map (cl
 
 Definition ceil_s (z : Z) : Z := (((z + second - 1) / second) * second)%Z.
 
-(* [part]: 0 = everything; 1 = everything, but the SAN-exactness test is left to the companion
-   [CreateSans] case when a selected identity contains a comma; 2 = only SAN exactness *)
-Definition has_comma_id (ids : list string) : bool := existsb (contains_char comma) ids.
+(* the impersonated identity must lie in the trust domain of one of the caller's authenticated
+   SPIFFE identities: the trust-domain segment is not for the request metadata to choose *)
+Definition spec_in_caller_td (u : caller) (imp : string) : bool :=
+  match parse_identity imp with
+  | Some id => existsb (fun s => match parse_identity s with
+                                 | Some cid => String.eqb (sp_td cid) (sp_td id)
+                                 | None => false end) (identities u)
+  | None => false
+  end.
 
+Definition spec_impersonating (rq : request) : option string :=
+  match find (fun kv => String.eqb (fst kv) "ImpersonatedIdentity") (rq_metadata rq) with
+  | Some (_, MStr imp) => if String.eqb imp "" then None else Some imp
+  | _ => None
+  end.
+
+(* [part]: 0 = everything; 1 = everything, but the trust-domain test of an impersonated identity is
+   left to the companion [CreateTd] case when it fails; 2 = only that trust-domain test *)
 Definition create_prop_part (part : N) iptab env rs na cfg rq (t0 t1 : Z) (obs : observed) : bool :=
   match obs with
   | OPanic => false
@@ -215,9 +230,13 @@ Definition create_prop_part (part : N) iptab env rs na cfg rq (t0 t1 : Z) (obs :
           match spec_identities na rq u with
           | None => false                               (* signed an unauthorised impersonation *)
           | Some ids =>
-              (if N.eqb part 1 && has_comma_id ids then true
-               else list_eqb san_eqb (c_sans leaf) (spec_sans (ip_lookup iptab) ids)) &&   (* exactly the identities *)
+              (match spec_impersonating rq with
+               | Some imp => N.eqb part 1 || spec_in_caller_td u imp      (* impersonation stays in the caller's trust domain *)
+               | None => true
+               end) &&
               (N.eqb part 2 ||
+              list_eqb san_eqb (c_sans leaf) (spec_sans (ip_lookup iptab) ids) &&   (* exactly the identities *)
+              negb (existsb (contains_char comma) ids) &&
               negb (c_is_ca leaf) && N.eqb (N.land (c_key_usage leaf) 32) 0 &&      (* never a CA / CertSign *)
               c_bc_valid leaf &&
               N.eqb (c_key leaf) (csr_key (rq_csr rq)) &&                           (* binds the CSR key *)
@@ -241,7 +260,7 @@ Definition authn_no_panic (o : authn_out) : bool := match o with APanic => false
 Definition prop_ok (c : case) : bool :=
   match c with
   | Create _ iptab env rs na cfg rq t0 t1 obs => create_prop_part 1 iptab env rs na cfg rq t0 t1 obs
-  | CreateSans _ iptab env rs na cfg rq t0 t1 obs => create_prop_part 2 iptab env rs na cfg rq t0 t1 obs
+  | CreateTd _ iptab env rs na cfg rq t0 t1 obs => create_prop_part 2 iptab env rs na cfg rq t0 t1 obs
   | Oidc _ verified td auds sub aud obs =>
       authn_no_panic obs &&
       match obs with
